@@ -194,6 +194,9 @@ def run(chk, repo):
     stop_lost_scan(chk, repo, 'C03.k')
     stage_comparator_per_node(chk, repo, 'C03.l')
     start_gain_decision(chk, repo, 'C03.m')
+    from rules.shared import sec_shift_before_growth
+    chk.clauses.append('C03.n in join_miscleaved_peptides the Sec positions of a node are shifted by the length joined before that node (shift precedes the growth of the running length): SECT labels sit on peptides that really end in front of the Sec')
+    sec_shift_before_growth(chk, repo, 'C03.n')
 
 
 def sec_variant_filter(chk, repo, rid):
